@@ -22,8 +22,10 @@ Definition agrees (c : c06case) : bool :=
       && ((code =? -1) || (code =? validate the_schema ty m))
   end.
 
+(* masks the projection clause is stated for: no empty segment (every path string splits into at
+   least one segment, so a path is never the empty list) *)
 Definition mask_segs_ok (m : mask) : bool :=
-  match m with None => true | Some ps => segs_ok ps end.
+  match m with None => true | Some ps => segs_ok ps && forallb (fun p => negb (is_nil p)) ps end.
 
 (* The property on one observation, not through the model's algorithm:
    - the read did not panic, whatever the mask;
